@@ -197,10 +197,76 @@ def part_file(ctx):
             ctx.stats.case(b'ls1' + bytes((b,)), nontriv(bytes((b,))), None, ['file_longstring_single'])
 
 
+def big_code(seed, shape):
+    """Code whose Unicode spelling is longer than 64 KiB (each glyph takes 3 or 6 bytes of UTF-8): many comment lines
+    of glyphs, or one very long line holding a glyph string with escapes. A few ASCII characters in front shift
+    every glyph against any fixed-size block a reader might use."""
+    from vlib.choices import expand
+    pad = b'x' * (seed[0] % 7)
+    if shape == 'lines':
+        raw = expand(b'big' + seed, 23000)
+        out = bytearray(b'--' + pad + b'\n')
+        for i in range(0, len(raw), 61):
+            out += b'-- ' + bytes(0x80 + b % 0x80 for b in raw[i:i + 60]) + b'\n'
+        return bytes(out)
+    raw = expand(b'one' + seed, 22000 + 40 * seed[1])
+    body = bytearray()
+    for i, b in enumerate(raw):
+        if i % 97 == 96:
+            body += b'\\n'          # an escape sequence every so often
+        else:
+            body.append(0x80 + b % 0x80)
+    return b'--' + pad + b'\ns="' + bytes(body) + b'" t=1\n'
+
+
+def file_roundtrip_big(seed, shape):
+    from vlib import cartgen
+    from pico8.game.formatter.p8 import P8Formatter
+    case = {'big': shape, 'seed': bytes(seed)}
+    code = big_code(seed, shape)
+    g = cartgen.make_game(bytes(0x4300), code=code)
+    buf = io.BytesIO()
+    try:
+        P8Formatter.to_file(g, buf)
+        g2 = P8Formatter.from_file(io.BytesIO(buf.getvalue()))
+        back = b''.join(g2.lua.to_lines())
+    except Exception as e:
+        raise Violation('.p8 write/read of %d characters of glyph-heavy code (%s, %d bytes of UTF-8) raised %r'
+                        % (len(code), shape, len(buf.getvalue()), e), case, 'file-big')
+    if back != code:
+        i = next((i for i in range(min(len(back), len(code))) if back[i] != code[i]), min(len(back), len(code)))
+        raise Violation('.p8 write/read changed glyph-heavy code (%s, %d characters) at character %d: wrote ...%s, '
+                        'read ...%s' % (shape, len(code), i, show(code[max(0, i - 10):i + 20]),
+                                        show(back[max(0, i - 10):i + 20])), case, 'file-big')
+    return len(buf.getvalue())
+
+
+HEADER_LIKE = ([b'__' + bytes((b,)) + b'__' for b in range(0x80, 0x100)] +
+               [b'__' + bytes((b,)) + b'__' for b in b' -.:/+#!\t'] +
+               [b'__\xd9\xdd\xed\xcd__', b'__lua__ ', b' __lua__', b'__lua_', b'_lua__', b'__lua__x', b'__l ua__', b'____',
+                b'__lu\x8ba__', b'__gfx\xff__', b'x__gfx__'])
+
+
+def part_file_big(ctx):
+    """Long files, and lines that look like - but by the format's ASCII word rule are not - section headers."""
+    def body(v):
+        seed, shape = v
+        n = file_roundtrip_big(seed, shape)
+        ctx.stats.case(b'big' + seed + shape.encode(), True, {'big_file': shape, 'utf8_bytes': n}, ['file_big_' + shape])
+    ctx.hyp('file_big', st.tuples(st.binary(min_size=2, max_size=2), st.sampled_from(['lines', 'oneline'])), body,
+            max_examples=6 if ctx.quick else 40, shrink=False)
+    for k, line in enumerate(HEADER_LIKE):
+        if k % ctx.nshards != ctx.shard:
+            continue
+        for ctxt in (b'a\n%s\nz', b'\n%s\n'):
+            file_roundtrip_longstring(ctxt % line)
+        ctx.stats.case(b'hl' + line, True, {'header_like_line': show(line)} if k % 40 == 0 else None, ['file_header_like_line'])
+
+
 def parts(tier):
     if tier == 'quick':
-        return [('pairs', part_pairs, 4), ('long', part_long, 1), ('file', part_file, 4)]
-    return [('pairs', part_pairs, 8), ('long', part_long, 4), ('file', part_file, 4)]
+        return [('pairs', part_pairs, 4), ('long', part_long, 1), ('file', part_file, 4), ('file_big', part_file_big, 2)]
+    return [('pairs', part_pairs, 8), ('long', part_long, 4), ('file', part_file, 4), ('file_big', part_file_big, 4)]
 
 
 def replay(case):
@@ -210,6 +276,8 @@ def replay(case):
         file_roundtrip(case['line'])
     elif 'longstring' in case:
         file_roundtrip_longstring(case['longstring'])
+    elif 'big' in case:
+        file_roundtrip_big(case['seed'], case['big'])
     else:
         roundtrip(case['bytes'])
 
